@@ -20,7 +20,7 @@ func (c *Ctx) eapReuse(prop string) {
 	}
 	g := NewGen(c.seed + 977)
 	s := c.suite("reused-decoder-object", "oracle",
-		"sequences of 2..6 EAP packets (API-built AKA' packets with different attribute subsets, other methods, Success/Failure) decoded one after the other into ONE *eap.EAP object: after each Unmarshal the rendered value, its re-marshalling and (for AKA') CalcEapAkaPrimeAtMAC must equal those of the same packet decoded into a fresh object; non-trivial = sequence contains >= 2 AKA' packets; distinct by sequence")
+		"sequences of 2..6 EAP packets (API-built AKA' packets with different attribute subsets, other methods, Success/Failure; a quarter of them followed by a mutated copy that may fail to decode) decoded one after the other into ONE *eap.EAP object: after each Unmarshal the rendered value, its re-marshalling and (for AKA') CalcEapAkaPrimeAtMAC must equal those of the same packet decoded into a fresh object; non-trivial = sequence contains >= 2 AKA' packets; distinct by sequence")
 	n := c.n(600, 30000)
 	for i := 0; i < n; i++ {
 		k := 2 + g.r.Intn(5)
@@ -45,6 +45,11 @@ func (c *Ctx) eapReuse(prop string) {
 				continue
 			}
 			wires = append(wires, b)
+			if g.chance(0.25) { // a packet that fails to decode (or decodes differently) in between: the next one still has to decode as into a fresh object
+				if mw := g.mutate(b); len(mw) > 0 { // EAP.Unmarshal of an EMPTY slice returns nil without touching the object (observation, outside C14)
+					wires = append(wires, mw)
+				}
+			}
 		}
 		key := g.keyBytesRandom(32)
 		long := new(eap.EAP)
